@@ -238,7 +238,7 @@ func c07randNib(r *vu.RNG, l int) string {
 }
 
 var c07pkLens = []int{0, 1, 2, 3, 14, 15, 16, 30, 31, 32, 62, 63, 64, 65, 317, 318, 319, 573, 65534, 65535}
-var c07valLens = []int{0, 1, 2, 31, 32, 33, 63, 64, 65, 300}
+var c07valLens = []int{0, 1, 2, 26, 27, 28, 29, 30, 31, 32, 33, 63, 64, 65, 300}
 
 func c07tree(r *vu.RNG, depth int, small bool) string {
 	pkl := r.Intn(6)
